@@ -37,6 +37,9 @@ CLAIMED.update({
   "C09": ("dsim", "deterministic simulation: every source wrapped in a call-counting EventSource; register/reregister/unregister calls vs the calls the history implies", "exploration",
           "Every calloop source is inserted through a transparent wrapper that counts register/reregister/unregister calls and reports the returned PostAction; after every event and every step the counts of all sources must equal what the model derives from the history (Continue: nothing, Reregister: one reregister on that source, Disable: one unregister, Remove: one unregister and release; deferred self-requests merged only under Continue; nothing on any other source, nothing carried over, also after an error). The 16 PostAction pairs of | and |= are evaluated at the start of every run.",
           "The wrapper is harness code (thin delegation).", "3/C09"),
+  "C14": ("dsim", "deterministic simulation: instrumented lifecycle sources (synthetic sub-token + ping child) under update/disable/enable/remove/failed registrations, per-dispatch call trace oracle", "exploration",
+          "Harness sources that opt into the additional lifecycle events record every before_sleep / before_handle_events call with its position relative to the wait and to the first process_events; per dispatch whose hooks and wait succeed: entitled (inserted and enabled at dispatch start) sources get exactly one of each in order, others none; a synthetic event forces a requested timeout of 0 and is delivered once to the same source; the iterator yields exactly the keys of the recorded real batch that carry the source's registration token; the lifecycle set size equals the model count with no duplicates. Scripted register/reregister/unregister/before_sleep failures are part of the histories.",
+          "The lifecycle source is harness code written against the EventSource documentation.", "3/C14"),
   "C15": ("dsim", "deterministic simulation with fault enumeration: every epoll_ctl seam call and every process_events call of a fault-free history is failed in turn", "fault_enumeration",
           "Each generated history is first run fault-free, which numbers every fault site it passes (each Poll::register/reregister/unregister call, each process_events invocation); it is then re-run once per site with exactly that site failing (errno rotating over EEXIST, ENOENT, EBADF, EPERM, ENOMEM) and the history continues. Natural failures (duplicate fd, regular file) are ordinary steps. Oracle: the failing call returns Err, no panic then or later, slots and kernel table as before, only the source hit becomes indeterminate, every other source stays under the strict oracles, later insertions succeed.",
           "The source hit by a fault is not judged afterwards (any behaviour but a panic or an effect on others is accepted).", "3/C15"),
